@@ -92,12 +92,14 @@ def snap_state(ms):
         d = {"members": [int(v) for v in c.member_points], "log_determinant": c.log_determinant}
         for f in ARRAY_FIELDS:
             v = getattr(c, f)
+            if v is not None and np.asarray(v).dtype == object:
+                v = None           # ClusterParameters.deep_copy turns an unset field (None) into a 0-d object array
             d[f] = None if v is None else np.array(v, copy=True)
         s["clusters"].append(d)
     return s
 
 
-def states_equal(a, b, fields=("stacked_data_mean", "empirical_covariance", "train_inverse", "computed_covariance")):
+def states_equal(a, b, fields=("stacked_data_mean", "empirical_covariance", "train_inverse", "computed_covariance"), logdet=True):
     """-> None if equal else a description of the first difference (labels, membership, fitted statistics, cost)."""
     if a["labels"] != b["labels"]:
         return "labels"
@@ -108,7 +110,7 @@ def states_equal(a, b, fields=("stacked_data_mean", "empirical_covariance", "tra
     for k, (ca, cb) in enumerate(zip(a["clusters"], b["clusters"])):
         if ca["members"] != cb["members"]:
             return f"membership of cluster {k}"
-        if not _same_scalar(ca["log_determinant"], cb["log_determinant"]):
+        if logdet and not _same_scalar(ca["log_determinant"], cb["log_determinant"]):
             return f"log-determinant of cluster {k}"
         for f in fields:
             va, vb = ca[f], cb[f]
